@@ -209,7 +209,7 @@ def check(run):
         return
     found_before = len(run.violations) + len(run.known_hit)
     progs, metas = [], []
-    for _ in range(4000 if thorough else 1200):
+    for _ in range(12000 if thorough else 1200):
         lines, meta = managed_program(rng, thorough)
         progs.append(lines)
         metas.append(meta)
